@@ -47,7 +47,7 @@ def has_dup(edge):
     return any(nets.same(set(vals[i]), set(vals[j])) for i in range(len(vals)) for j in range(i))
 
 
-@harness("C19.cleanup")
+@harness("C19.cleanup", raises_are_violations=True)
 def cleanup(ctx, p):
     H = nets.build_H(ctx, _shape(p["shape"]), attrs=True)[0]
     fl = {k: ctx.flag(k) for k in ("isolates", "singletons", "multiedges", "connected", "relabel")}
@@ -94,7 +94,7 @@ def cleanup(ctx, p):
     ctx.require(nets.same(before, nets.snap(H)), "cleanup(in_place=False) changed its input")
 
 
-@harness("C19.relabel")
+@harness("C19.relabel", raises_are_violations=True)
 def relabel(ctx, p):
     cls = p["cls"]
     if cls == "D":
@@ -131,7 +131,7 @@ def relabel(ctx, p):
     ctx.require(nets.same(before, nets.snap(H)), "convert_labels_to_integers(in_place=False) changed its input")
 
 
-@harness("C19.subhypergraph")
+@harness("C19.subhypergraph", raises_are_violations=True)
 def subhypergraph(ctx, p):
     H, nl, el, c = nets.build_H(ctx, _shape(p["shape"]), attrs=True)
     nodes_sel = None
@@ -163,7 +163,7 @@ def subhypergraph(ctx, p):
     ctx.require(not nets.inv_H(R), "subhypergraph result violates the incidence invariant")
 
 
-@harness("C19.dual")
+@harness("C19.dual", raises_are_violations=True)
 def dual(ctx, p):
     H = nets.build_H(ctx, _shape(p["shape"]), attrs=True)[0]
     ctx.info["op"] = "dual"
@@ -182,7 +182,7 @@ def dual(ctx, p):
         ctx.require(ok, "dual is not an involution on a network without isolated nodes or empty edges")
 
 
-@harness("C19.lshift")
+@harness("C19.lshift", raises_are_violations=True)
 def lshift(ctx, p):
     H1 = nets.build_H(ctx, _shape(p["shape"]), attrs=True)[0]
     H2 = nets.build_H(ctx, _shape(p["shape2"]), attrs=True, tag="b")[0]
@@ -203,7 +203,7 @@ def lshift(ctx, p):
     ctx.require(not nets.inv_H(R), "<< result violates the incidence invariant")
 
 
-@harness("C19.complement")
+@harness("C19.complement", raises_are_violations=True)
 def complement(ctx, p):
     H, nl, el, c = nets.build_H(ctx, _shape(p["shape"]))
     ctx.info["op"] = "complement"
@@ -255,7 +255,7 @@ def cut(ctx, p):
     ctx.require(nets.same(before, nets.snap(H)), "cut_to_order changed its input")
 
 
-@harness("C19.maxsimp")
+@harness("C19.maxsimp", raises_are_violations=True)
 def maxsimp(ctx, p):
     S = nets.build_H(ctx, _shape(p["shape"]), cls=xgi.SimplicialComplex)[0]
     ctx.info["op"] = "from_max_simplices"
@@ -268,7 +268,7 @@ def maxsimp(ctx, p):
     ctx.require(type(R) is xgi.Hypergraph, "from_max_simplices does not return a Hypergraph")
 
 
-@harness("C19.lcc")
+@harness("C19.lcc", raises_are_violations=True)
 def lcc(ctx, p):
     H = nets.build_H(ctx, _shape(p["shape"]), attrs=True)[0]
     if not H._node:
